@@ -3,7 +3,7 @@
 From Coq Require Import String.
 From Coq Require Import List NArith.
 From Coq.Strings Require Import Byte.
-From Borsh Require Import Bytes Result Ty Ser De Entry Schema SchemaFns SchemaSpec ArrayGuard Io.
+From Borsh Require Import Bytes Result Ty Ser De Entry Schema SchemaFns SchemaSpec ArrayGuard Io Spec.
 From Borsh Require Import Discr Item DeriveCheck Derive.
 Require Import ExtrOcamlBasic.
 Extraction Language OCaml.
@@ -19,4 +19,5 @@ Extraction "model.ml"
   ArrayGuard.deserialize
   check violations derive_ty documented_sem has_variant_attrs implicit_overflow type_dependent_discr discrs_canonical
   rust_discrs derive_discrs tag_eval canonical parse tokens_of
-  decr try_from_reader_count to_writer sw_write_all fw_write_all vw_write_all run_ops observable io_std io_shim world0.
+  decr try_from_reader_count to_writer sw_write_all fw_write_all vw_write_all run_ops observable io_std io_shim world0
+  spec_enc refusable emit_len.
